@@ -900,3 +900,126 @@ Proof.
   intros He Hen. rewrite (subninja_nests f stack wd fs sc st ptext path es ds [] He Hen), run_decls_nil.
   repeat split.
 Qed.
+
+(* ================================================================ non-vacuity: concrete manifests *)
+
+(* Strings are spelled as byte lists; the comment above each example gives the manifest text. *)
+(* wd /w, main.ninja:
+     flags = -O1
+     rule cc
+       command = cc $in -o $out $flags
+       description = CC $out
+       depfile = $out.d
+     flags = -O2
+     build a$ b.o: cc a$ b.c | imp.h || oo
+     build c.o: cc c.c
+       flags = -g
+   the first command uses the value of flags at ITS build statement (-O2, not -O1), quotes the path with the
+   space in command and description but not in depfile, and $in lists only the explicit input *)
+Definition ex1_files : files :=
+  [([47; 119; 47; 109; 97; 105; 110; 46; 110; 105; 110; 106; 97],
+    [DBinding [102; 108; 97; 103; 115] [45; 79; 49];
+     DRule [99; 99] [BBind [99; 111; 109; 109; 97; 110; 100] [99; 99; 32; 36; 105; 110; 32; 45; 111; 32; 36; 111; 117; 116; 32; 36; 102; 108; 97; 103; 115]; BBind [100; 101; 115; 99; 114; 105; 112; 116; 105; 111; 110] [67; 67; 32; 36; 111; 117; 116]; BBind [100; 101; 112; 102; 105; 108; 101] [36; 111; 117; 116; 46; 100]];
+     DBinding [102; 108; 97; 103; 115] [45; 79; 50];
+     DBuild [[97; 36; 32; 98; 46; 111]] [99; 99] [[97; 36; 32; 98; 46; 99]] [[105; 109; 112; 46; 104]] [[111; 111]] [];
+     DBuild [[99; 46; 111]] [99; 99] [[99; 46; 99]] [] [] [BBind [102; 108; 97; 103; 115] [45; 103]]])].
+Example ex1_commands :
+  map (fun c => (c_command c, c_description c, c_depfile c)) (mf_commands (load 64 [47; 119] ex1_files [109; 97; 105; 110; 46; 110; 105; 110; 106; 97])) =
+  [([99; 99; 32; 39; 97; 32; 98; 46; 99; 39; 32; 45; 111; 32; 39; 97; 32; 98; 46; 111; 39; 32; 45; 79; 50], [67; 67; 32; 39; 97; 32; 98; 46; 111; 39], [97; 32; 98; 46; 111; 46; 100]); ([99; 99; 32; 99; 46; 99; 32; 45; 111; 32; 99; 46; 111; 32; 45; 103], [67; 67; 32; 99; 46; 111], [99; 46; 111; 46; 100])] /\
+  mf_errors (load 64 [47; 119] ex1_files [109; 97; 105; 110; 46; 110; 105; 110; 106; 97]) = [].
+Proof. vm_compute. split; reflexivity. Qed.
+(* main.ninja:            inc.ninja:            sub.ninja:
+     x = 1                  y = ${x}-inc          z = ${x}-sub
+     rule r                 rule ri               rule rs
+       command = r $x $y $z   command = ri          command = rs $x
+     include inc.ninja                            x = shadow
+     subninja sub.ninja                           build s: rs
+     build o: r                                   build t: r
+     build p: ri
+     build q: rs
+   y and ri (include) are visible afterwards, z and rs (subninja) are not (q: unknown rule), the subninja file sees
+   the parent's x and r, and its own x shadows the parent's only inside *)
+Definition ex2_files : files :=
+  [([47; 119; 47; 109; 97; 105; 110; 46; 110; 105; 110; 106; 97], [DBinding [120] [49]; DRule [114] [BBind [99; 111; 109; 109; 97; 110; 100] [114; 32; 36; 120; 32; 36; 121; 32; 36; 122]]; DInclude true [105; 110; 99; 46; 110; 105; 110; 106; 97]; DInclude false [115; 117; 98; 46; 110; 105; 110; 106; 97];
+         DBuild [[111]] [114] [] [] [] []; DBuild [[112]] [114; 105] [] [] [] []; DBuild [[113]] [114; 115] [] [] [] []]);
+   ([47; 119; 47; 105; 110; 99; 46; 110; 105; 110; 106; 97], [DBinding [121] [36; 123; 120; 125; 45; 105; 110; 99]; DRule [114; 105] [BBind [99; 111; 109; 109; 97; 110; 100] [114; 105]]]);
+   ([47; 119; 47; 115; 117; 98; 46; 110; 105; 110; 106; 97], [DBinding [122] [36; 123; 120; 125; 45; 115; 117; 98]; DRule [114; 115] [BBind [99; 111; 109; 109; 97; 110; 100] [114; 115; 32; 36; 120]]; DBinding [120] [115; 104; 97; 100; 111; 119]; DBuild [[115]] [114; 115] [] [] [] []; DBuild [[116]] [114] [] [] [] []])].
+Example ex2_scopes :
+  map (fun c => (map n_screen (c_outputs c), c_rule c, c_command c)) (mf_commands (load 64 [47; 119] ex2_files [109; 97; 105; 110; 46; 110; 105; 110; 106; 97])) =
+  [([[115]], [114; 115], [114; 115; 32; 115; 104; 97; 100; 111; 119]); ([[116]], [114], [114; 32; 115; 104; 97; 100; 111; 119; 32; 49; 45; 105; 110; 99; 32; 49; 45; 115; 117; 98]); ([[111]], [114], [114; 32; 49; 32; 49; 45; 105; 110; 99; 32]); ([[112]], [114; 105], [114; 105]); ([[113]], [112; 104; 111; 110; 121], [])] /\
+  mf_errors (load 64 [47; 119] ex2_files [109; 97; 105; 110; 46; 110; 105; 110; 106; 97]) = [EUnknownRule] /\
+  f_vars (mf_root (load 64 [47; 119] ex2_files [109; 97; 105; 110; 46; 110; 105; 110; 106; 97])) = [([120], [49]); ([121], [49; 45; 105; 110; 99])].
+Proof. vm_compute. repeat split; reflexivity. Qed.
+(* main.ninja:  rule r / command = a $description / description = b $command / build o: r i / include main.ninja
+   the rule variable cycle is reported once per expansion that meets it, the self-include is refused, and no fuel
+   runs out *)
+Definition ex3_files : files :=
+  [([47; 119; 47; 109; 97; 105; 110; 46; 110; 105; 110; 106; 97], [DRule [114] [BBind [99; 111; 109; 109; 97; 110; 100] [97; 32; 36; 100; 101; 115; 99; 114; 105; 112; 116; 105; 111; 110]; BBind [100; 101; 115; 99; 114; 105; 112; 116; 105; 111; 110] [98; 32; 36; 99; 111; 109; 109; 97; 110; 100]]; DBuild [[111]] [114] [[105]] [] [] []; DInclude true [109; 97; 105; 110; 46; 110; 105; 110; 106; 97]])].
+Example ex3_errors :
+  mf_errors (load 64 [47; 119] ex3_files [109; 97; 105; 110; 46; 110; 105; 110; 106; 97]) = [ECycle [99; 111; 109; 109; 97; 110; 100]; ECycle [100; 101; 115; 99; 114; 105; 112; 116; 105; 111; 110]; ERecursiveInclude] /\
+  map c_command (mf_commands (load 64 [47; 119] ex3_files [109; 97; 105; 110; 46; 110; 105; 110; 106; 97])) = [[97; 32; 98; 32]].
+Proof. vm_compute. split; reflexivity. Qed.
+
+
+(* every escape form at once:  a$x.b${x.y}$$ $:$ c$<newline><blanks>d$-  with x = 1, x.y = 2 (the trailing "$-" is
+   the simple variable "-", unbound) *)
+Example ex_escapes :
+  eval_in_scope [mkFrame [([120], [49]); ([120; 46; 121], [50])] []] [97; 36; 120; 46; 98; 36; 123; 120; 46; 121; 125; 36; 36; 32; 36; 58; 36; 32; 99; 36; 10; 32; 32; 32; 9; 100; 36; 45] = ([97; 49; 46; 98; 50; 36; 32; 58; 32; 99; 100], []) /\
+  eval_in_scope [] [97; 98; 36; 33; 99; 100] = ([97; 98], [EEval EvBadEscape]) /\
+  eval_in_scope [] [97; 36; 123; 120; 43; 121; 125; 98; 36; 123; 122; 122] = ([97; 98], [EEval EvBadVarName; EEval EvMissingBrace]) /\
+  eval_in_scope [] [97; 98; 99; 36] = ([97; 98; 99], [EEval EvDollarAtEnd]).
+Proof. vm_compute. repeat split; reflexivity. Qed.
+
+(* the hypotheses of rule_vars_lazy are met by x = "x", v1 = "1", v2 = "2" *)
+Example rule_vars_lazy_instance : exists cs c,
+  m_commands (snd (run_decls 64 [[47; 119; 47; 109; 97; 105; 110; 46; 110; 105; 110; 106; 97]] [47; 119] []
+     [DBinding [120] [49]; DRule [114] [BBind nm_command (36 :: [120])]; DBinding [120] [50]; DBuild [[111]] [114] [] [] [] []]
+     (init_scopes, init_state))) = cs ++ [c] /\ c_command c = [50].
+Proof.
+  apply rule_vars_lazy.
+  - discriminate.
+  - repeat constructor.
+  - intros [H|[H|H]]; discriminate H.
+  - discriminate.
+  - repeat constructor; discriminate.
+  - repeat constructor; discriminate.
+Qed.
+
+(* the hypotheses of rule_cycle_reports_error are met by the rule of ex3: command -> description -> command *)
+Definition ex3_ctx : bctx :=
+  mkCtx [] [] [] [(nm_command, [97; 32; 36; 100; 101; 115; 99; 114; 105; 112; 116; 105; 111; 110]); (nm_description, [98; 32; 36; 99; 111; 109; 109; 97; 110; 100])] [] true.
+Example ex3_reaches_cycle : reaches_cycle ex3_ctx [] nm_command.
+Proof.
+  assert (Hs1 : ~ special_name nm_command) by (intros [H|[H|H]]; discriminate H).
+  assert (Hs2 : ~ special_name nm_description) by (intros [H|[H|H]]; discriminate H).
+  eapply (rc_step ex3_ctx [] nm_command nm_description); [exact Hs1 | reflexivity | reflexivity | | ].
+  - apply (refers_simple [97; 32] nm_description []); [repeat constructor; discriminate | discriminate | repeat constructor | exact I].
+  - eapply (rc_step ex3_ctx [nm_command] nm_description nm_command); [exact Hs2 | reflexivity | reflexivity | | ].
+    + apply (refers_simple [98; 32] nm_command []); [repeat constructor; discriminate | discriminate | repeat constructor | exact I].
+    + apply rc_here; [right; left; reflexivity|].
+      split; [exact Hs1 | split; [reflexivity | eexists; reflexivity]].
+Qed.
+Example ex3_cycle_error : exists v, In (ECycle v) (snd (lookup_var 3 ex3_ctx [] nm_command)).
+Proof. apply rule_cycle_reports_error; [exact ex3_reaches_cycle | cbn; lia]. Qed.
+
+(* the hypotheses of include_binding_visible are met: inc.ninja = "y = ${x}-inc / z9 = lit" *)
+Definition ex4_files : files := [([47; 119; 47; 105; 110; 99; 46; 110; 105; 110; 106; 97], [DBinding [121] [36; 123; 120; 125; 45; 105; 110; 99]; DBinding [122; 57] [108; 105; 116]])].
+Example ex4_include_instance :
+  lookup_binding (fst (run_decls 1 [[47; 119; 47; 109; 97; 105; 110; 46; 110; 105; 110; 106; 97]] [47; 119] ex4_files [DInclude true [105; 110; 99; 46; 110; 105; 110; 106; 97]] (set_var init_scopes [120] [49], init_state))) [122; 57] = [108; 105; 116].
+Proof.
+  apply (include_binding_visible 0 _ _ _ _ _ _ [105; 110; 99; 46; 110; 105; 110; 106; 97] [] [DBinding [121] [36; 123; 120; 125; 45; 105; 110; 99]]).
+  - reflexivity.
+  - split; [unfold max_include_depth; cbn [length]; lia | split; vm_compute; reflexivity].
+  - repeat constructor; discriminate.
+Qed.
+
+(* combined forms used by the property file *)
+Theorem in_out_quoting ex outs ps rule sc name :
+  lookup_named ex outs ps rule sc name =
+  lookup_var (S (length rule)) (mkCtx ex outs ps rule sc (escapes_in_out name)) [] name /\
+  (escapes_in_out name = false <-> name = nm_depfile \/ name = nm_rspfile).
+Proof. split; [apply lookup_named_context | apply escapes_in_out_spec]. Qed.
+
+Theorem subninja_child_sees_parent sc x rn :
+  lookup_binding (empty_frame :: sc) x = lookup_binding sc x /\ lookup_rule (empty_frame :: sc) rn = lookup_rule sc rn.
+Proof. split; reflexivity. Qed.
